@@ -40,7 +40,11 @@ func runRoundTrip(o opts, out *Output, sig int) {
 		if r.Chance(30) {
 			// the content decoded must not depend on the producer's options: dictionary limits with reuse (reset
 			// regime) and without (overflow), no dictionaries, no compression
-			options, optName = optionSet(r)
+			if r.Bool() {
+				options, optName = optionSet(r)
+			} else {
+				options, optName = randomOptions(r)
+			}
 		}
 		stats["options_"+optName]++
 		leanBase := 0
@@ -117,7 +121,10 @@ func runRoundTrip(o opts, out *Output, sig int) {
 		okSoFar := true
 		for b := 0; b < nb && okSoFar; b++ {
 			data := genAnyN(g, r, sig, 1+r.Intn(7))
-			if optName != "default" && r.Bool() {
+			if r.Chance(4) {
+				wg := &OGen{r: r.Fork(), Wide: true}
+				data = genAnyN(wg, r, sig, 300+r.Intn(200)) // many dictionary columns crossing an index width in one batch
+			} else if optName != "default" && r.Bool() {
 				// many items over a sliding window of names, each repeated: crosses an 8-bit dictionary limit with a low
 				// distinct/total ratio (reset) or a high one (overflow)
 				data = leanBatch(sig, 60+r.Intn(80), 1+r.Intn(5), &leanBase)
